@@ -13,7 +13,8 @@
    The k-th 'L' op creates module k.  Its function n returns 1000+16*k+n, its data n holds
    5000+16*k+n, external function a returns 9000+a, the resolver supplies external 100+n for n.
    After the declared items each module gets, per imported name, a caller `acc_c_<name>` (calls the
-   import) and a reader `acc_r_<name>` (loads an i64 through the import's address).
+   import with `call`), `acc_i_<name>` (with `inline`) and a reader `acc_r_<name>` (loads an i64
+   through the import's address).
 
    Output: per op `ok` or `E:<error>`; the history stops at the first error.  After each
    successful link: `res=[n:a,...]` (resolver calls that returned an address, in order) and for every
@@ -84,7 +85,7 @@ struct mod {
   MIR_module_t m;
   int nspec;                 /* number of items that come from the declarations */
   MIR_item_t imp[MAXN];      /* import item per name */
-  MIR_item_t acc_c[MAXN], acc_r[MAXN];
+  MIR_item_t acc_c[MAXN], acc_i[MAXN], acc_r[MAXN];
 };
 static struct mod mods[MAXMOD];
 static int nmods;
@@ -137,6 +138,19 @@ static void build_module (MIR_context_t ctx, int k, char *decls) {
     MIR_append_insn (ctx, f, MIR_new_ret_insn (ctx, 1, MIR_new_reg_op (ctx, r)));
     MIR_finish_func (ctx);
     md->acc_c[n] = f;
+    sprintf (an, "acc_i_%s", name); /* the same through an `inline` insn */
+    f = MIR_new_func_arr (ctx, an, 1, &i64, 0, NULL);
+    r = MIR_new_func_reg (ctx, f->u.func, MIR_T_I64, "r");
+    {
+      MIR_op_t ops[3];
+      ops[0] = MIR_new_ref_op (ctx, pr);
+      ops[1] = MIR_new_ref_op (ctx, md->imp[n]);
+      ops[2] = MIR_new_reg_op (ctx, r);
+      MIR_append_insn (ctx, f, MIR_new_insn_arr (ctx, MIR_INLINE, 3, ops));
+    }
+    MIR_append_insn (ctx, f, MIR_new_ret_insn (ctx, 1, MIR_new_reg_op (ctx, r)));
+    MIR_finish_func (ctx);
+    md->acc_i[n] = f;
     sprintf (an, "acc_r_%s", name);
     f = MIR_new_func_arr (ctx, an, 1, &i64, 0, NULL);
     MIR_reg_t a = MIR_new_func_reg (ctx, f->u.func, MIR_T_I64, "a");
@@ -205,8 +219,14 @@ static void print_bindings (void) {
       first = 0;
       if (kc == 'i') {
         int n = atoi (name + 1);
-        if ((what == 2 || what == 4) && md->acc_c[n] != NULL)
-          printf ("/%ld", (long) ((int64_t (*) (void)) md->acc_c[n]->addr) ());
+        if ((what == 2 || what == 4) && md->acc_c[n] != NULL) {
+          long v1 = (long) ((int64_t (*) (void)) md->acc_c[n]->addr) ();
+          long v2 = (long) ((int64_t (*) (void)) md->acc_i[n]->addr) ();
+          if (v1 == v2)
+            printf ("/%ld", v1);
+          else
+            printf ("/%ld~%ld", v1, v2); /* call and inline disagree */
+        }
         else if (what == 3 && md->acc_r[n] != NULL)
           printf ("/%ld", (long) ((int64_t (*) (void)) md->acc_r[n]->addr) ());
       }
